@@ -97,8 +97,8 @@ pub trait Prop {
     /// seconds before a single case is declared hung
     fn case_timeout(&self, tier: Tier) -> u64 {
         match tier {
-            Tier::Quick => 10,
-            Tier::Thorough => 30,
+            Tier::Quick => 20,
+            Tier::Thorough => 60,
         }
     }
     /// number of worker processes
